@@ -68,17 +68,9 @@ const (
 	backC       = 10
 )
 
-var budgetCur = func() float64 {
-	// development aid only (measuring the margin): C01_BUDGET_C overrides the constant
-	if v, err := strconv.ParseFloat(os.Getenv("C01_BUDGET_C"), 64); err == nil && v > 0 {
-		return v
-	}
-	return budgetC
-}()
-
 func budget(n int) int64 {
 	m := float64(n + 16)
-	return int64(budgetCur * m * m)
+	return int64(budgetC * m * m)
 }
 
 func stallBudget(n int) int64 { return stallC * int64(n+16) }
@@ -198,6 +190,51 @@ func callerFrames(skip int) (names, files []string) {
 	return
 }
 
+// pcBuf receives the sampled call stacks (innermost first): deep enough for the 10^4-level
+// nesting stressors (about 15 frames per level).
+var pcBuf = make([]uintptr, 1<<18)
+
+func funcEntry(pc uintptr) uintptr {
+	if f := runtime.FuncForPC(pc - 1); f != nil {
+		return f.Entry()
+	}
+	return 0
+}
+
+func reversed(pcs []uintptr) []uintptr {
+	out := make([]uintptr, len(pcs))
+	for i, pc := range pcs {
+		out[len(pcs)-1-i] = pc
+	}
+	return out
+}
+
+// symbolise turns return addresses (outermost first) into function names and files
+// (outermost first, inlined frames expanded).
+func symbolise(outer []uintptr) (names, files []string) {
+	if len(outer) == 0 {
+		return nil, nil
+	}
+	inner := make([]uintptr, len(outer))
+	for i, pc := range outer {
+		inner[len(outer)-1-i] = pc
+	}
+	fr := runtime.CallersFrames(inner)
+	for {
+		f, more := fr.Next()
+		names = append(names, f.Function)
+		files = append(files, f.File)
+		if !more {
+			break
+		}
+	}
+	for i, j := 0, len(names)-1; i < j; i, j = i+1, j-1 {
+		names[i], names[j] = names[j], names[i]
+		files[i], files[j] = files[j], files[i]
+	}
+	return
+}
+
 // panicSite: innermost repository frame of the panicking goroutine (called from a deferred
 // function while the panic unwinds, so the panicking frames are still on the stack).
 func panicSite() string {
@@ -247,10 +284,7 @@ func lcp(a, b []string) int {
 	return n
 }
 
-const (
-	abortSamples = 600
-	deepStack    = 4000 // frames
-)
+const abortSamples = 600
 
 // stepState is the per-call state of the step handler.
 type stepState struct {
@@ -259,6 +293,7 @@ type stepState struct {
 	maxRun  int64
 	beyond  int64 // consecutive steps with the position past any possible token index
 	back    int64 // number of times the position moved backwards
+	rewound bool  // the position moved backwards between the previous step and this one
 	set     [stallSpread]int
 	nset    int
 	lastPos int
@@ -275,16 +310,21 @@ func installBudget(n int, pos func() int) {
 	hard, stall, backMax := budget(n), stallBudget(n), int64(backC)*int64(n+16)
 	st := &stepState{lastPos: -1 << 30}
 	curStep = st
-	var names, files []string
+	var ref []uintptr // call stack of the first sample, outermost first
+	m, loopSame, truncated, need := 0, false, false, abortSamples
 	samples := 0
+	rewindSites := map[string]int{}
+	rewinds, sinceTrip := 0, 0
 	why, reason := "", ""
 	verifhook.SetStep(func(kind int, _ int64) {
 		st.total++
 		if pos != nil {
 			p := pos()
+			st.rewound = false
 			if p != st.lastPos {
 				if p < st.lastPos {
 					st.back++
+					st.rewound = true
 				}
 				st.lastPos = p
 				found := false
@@ -340,29 +380,75 @@ func installBudget(n int, pos func() int) {
 				return
 			}
 		}
-		nm, fl := callerFrames(2)
-		if samples == 0 {
-			names, files = nm, fl
-			if len(nm) >= deepStack {
-				// recursion deeper than the sampling buffer (or too deep to symbolise hundreds of
-				// times): the frames shared by all samples cannot be computed; name the innermost
-				// repository frame of this first sample, which is taken at a deterministic step
-				site := "unknown"
-				for i := len(nm) - 1; i >= 0; i-- {
-					if repoFrame(nm[i]) && !strings.HasSuffix(nm[i], ".(*Parser).current") {
-						site = siteOf(nm[i], fl[i])
-						break
+		if reason == "backtracking" {
+			// The frames common to consecutive samples land on an arbitrary level of the nested
+			// speculation. What identifies the defect is where parsing resumes after a rewind:
+			// the function that calls current() first after the position moved backwards is the
+			// construct whose list was parsed ahead (LbracketParser.Parse, EchoParser.Parse, …).
+			if st.rewound {
+				var small [24]uintptr
+				k := runtime.Callers(2, small[:])
+				nm, fl := symbolise(reversed(small[:k]))
+				rewindSites[loopSite(nm, fl)]++
+				rewinds++
+			}
+			sinceTrip++
+			if rewinds >= 300 || sinceTrip > 20_000_000 {
+				best, bn := "unknown", 0
+				for site, c := range rewindSites {
+					if c > bn || (c == bn && site < best) {
+						best, bn = site, c
 					}
 				}
-				panic(stepAbort{site: site, chain: fmt.Sprintf("(call stack of %d+ frames, not sampled)", len(nm)), steps: st.total, why: why, reason: reason})
+				panic(stepAbort{site: best, chain: fmt.Sprintf("(most frequent resumption point after %d rewinds)", rewinds), steps: st.total, why: why, reason: reason})
 			}
-		} else {
-			k := lcp(names, nm)
-			names, files = names[:k], files[:k]
+			return
+		}
+		k := runtime.Callers(2, pcBuf)
+		if samples == 0 {
+			// reference sample, outermost first
+			ref = make([]uintptr, k)
+			for x := 0; x < k; x++ {
+				ref[x] = pcBuf[k-1-x]
+			}
+			m, loopSame = len(ref), false
+			truncated = k == len(pcBuf)
+			if k > 2000 {
+				// unwinding a very deep stack hundreds of times would itself take seconds
+				if need = abortSamples * 2000 / k; need < 20 {
+					need = 20
+				}
+			}
+		} else if !truncated {
+			// number of outer frames this sample shares with the reference (same call sites);
+			// the first frame that differs still counts when it is the same function (that
+			// function is on the stack throughout and merely stands at another of its lines)
+			d := 0
+			for d < len(ref) && d < k && ref[d] == pcBuf[k-1-d] {
+				d++
+			}
+			same := d < len(ref) && d < k && funcEntry(ref[d]) == funcEntry(pcBuf[k-1-d])
+			if d < m {
+				m, loopSame = d, same
+			} else if d == m {
+				loopSame = loopSame && same
+			}
 		}
 		samples++
-		if samples >= abortSamples {
-			panic(stepAbort{site: loopSite(names, files), chain: loopChain(names), steps: st.total, why: why, reason: reason})
+		if samples >= need {
+			keep := m
+			if loopSame && keep < len(ref) {
+				keep++
+			}
+			if truncated {
+				keep = len(ref) // deeper than the buffer: name the innermost frame of the first sample
+			}
+			names, files := symbolise(ref[:keep])
+			chain := loopChain(names)
+			if truncated {
+				chain = "(call stack deeper than the sampling buffer) " + chain
+			}
+			panic(stepAbort{site: loopSite(names, files), chain: chain, steps: st.total, why: why, reason: reason})
 		}
 	})
 }
